@@ -754,3 +754,116 @@ class C19(Prop):
 
 for cls in (C01, C02, C06, C09, C10, C19):
     REGISTRY[cls.id] = cls()
+
+
+class C04(Prop):
+    id = "C04"
+    rule = ("cases: the C03 adversarial chunk stream (bit flips, truncations, extensions, rearrangements at chunk size 2/3) "
+            "and authentic files, each additionally run under read/write/flush fault schedules derived from its own "
+            "fault-free trace (every call position, Interrupted / other error / zero-length); observation = outcome, bytes "
+            "written and the full I/O trace (order and sizes of every read, write, flush), which must equal the model's; "
+            "direct oracle on the implementation: released bytes are a prefix of the plaintext in whole chunks unless the "
+            "sink itself cut a write, Ok only with the complete plaintext after a 0-byte probe read, no I/O event after the "
+            "event that determined an error; non-trivial = not the unmodified fault-free run")
+    assumptions = ["no-forgery-in-run premise for the authenticity part (as C03)",
+                   "the CLI half (lazily created output file) is C13"]
+
+    def oracle(self, P, cs, writer_faulty):
+        def f(r):
+            if r["code"] == 1 or r["code"] >= 900:
+                return ("error value or success, never a panic", r["outcome"])
+            out = r["out"]
+            if not P.startswith(out):
+                return ("bytes released are a prefix of the authentic plaintext", "out=" + out.hex())
+            if r["code"] == 0 and out != P:
+                return ("success only with the complete plaintext", "ok out=" + out.hex())
+            if not writer_faulty and r["code"] != 0 and len(out) not in cs:
+                return ("only whole authenticated chunks are released", "out=" + out.hex())
+            tr = r["trace"]
+            if r["code"] == 0:
+                # the final chunk's write must come after a probe read that returned 0 bytes
+                probe = [i for i, t in enumerate(tr) if t == (1, 1, 0)]
+                writes = [i for i, t in enumerate(tr) if t[0] == 3]
+                lastrec = [i for i, t in enumerate(tr) if t[0] == 1 and t[1] != 1]
+                if not probe:
+                    return ("Ok only after the 1-byte end-of-input probe read 0 bytes", "trace has no r1:0")
+                if writes and lastrec and any(w > lastrec[-1] and w < probe[-1] for w in writes):
+                    return ("the final chunk is written only after the probe", "write before probe")
+            else:
+                # nothing may follow the failing I/O event
+                bad = [i for i, t in enumerate(tr) if t[0] in (4, 6) or (t[0] == 2 and t[2] != 1) or (t[0] == 3 and t[2] == 0 and t[1] > 0)]
+                if bad and bad[0] != len(tr) - 1:
+                    return ("once an error is determined nothing further happens", "events after the failing call: %s" % (tr[bad[0]:],))
+            return None
+        return f
+
+    def cases(self, ctx):
+        rng = ctx.rng
+        c3 = REGISTRY["C03"]
+        base = [c for c in c3.chunk_stream(ctx, False) if c.op == "dec_chunks"]
+        if not ctx.thorough():
+            keep = [c for c in base if "authentic" in c.tags]
+            rest = [c for c in base if "authentic" not in c.tags]
+            base = keep + rng.sample(rest, min(len(rest), 150))
+        # plaintext of each base case is what its C03 oracle was built with: recover by running authentic files
+        auth = {}
+        for c in base:
+            if "authentic" in c.tags:
+                auth[(c.a["key"], c.a["cs"])] = auth.get((c.a["key"], c.a["cs"]), []) + [c]
+        vlib.run_impl(ctx.bin, base)
+        plain = {}
+        for c in base:
+            if "authentic" in c.tags:
+                plain[c.a["data"]] = c.result["out"]
+        out = []
+        # every base case once, fault free, with the C04 oracle against the longest authentic plaintext it extends
+        def plaintext_for(c):
+            best = b""
+            for f, p in plain.items():
+                if c.a["key"] == [k for k in [c.a["key"]]][0] and (c.a["data"][:16] == f[:16] or True):
+                    pass
+            return None
+        auth_files = [c for c in base if "authentic" in c.tags]
+        for c in auth_files:
+            P = c.result["out"]
+            cs = {0}
+            acc = 0
+            for rec in records(c.a["data"]):
+                acc += len(rec) - 32
+                cs.add(acc)
+            good = c.result
+            out.append(Case("dec_chunks", oracle=self.oracle(P, cs, False), tags=["fault-free", "trivial"], **dict(c.a)))
+            variants = fault_variants(good["trace"], "-", "-", "-")
+            if not ctx.thorough() and len(variants) > 40:
+                variants = rng.sample(variants, 40)
+            for rs, ws, fs, tag in variants:
+                a = dict(c.a)
+                a.update(rs=rs, ws=ws, fs=fs)
+                out.append(Case("dec_chunks", oracle=self.oracle(P, cs, tag.startswith("write")), tags=[tag.split("@")[0]], **a))
+            # partial reads / partial writes, no faults
+            for rs, ws in (("c1,c1,c1,c1,c1,c1,c1,c1,c1,c1,c1,c1,c1,c1,c1,c1,c1", "c1,c1,c1"), ("c5,c11,c2,c9", "c2,c1")):
+                a = dict(c.a)
+                a.update(rs=rs, ws=ws)
+                out.append(Case("dec_chunks", oracle=self.oracle(P, cs, False), tags=["partial-io"], **a))
+        # modified files: correspondence on the full trace (the model's monitor theorem covers them), prefix oracle
+        # against every authentic plaintext under the same key
+        for c in base:
+            if "authentic" in c.tags:
+                continue
+            cands = [x.result["out"] for x in auth_files if x.a["key"] == c.a["key"] and x.a["cs"] == c.a["cs"]]
+
+            def orc(r, cands=cands):
+                if r["code"] == 1 or r["code"] >= 900:
+                    return ("error value or success, never a panic", r["outcome"])
+                if not any(p.startswith(r["out"]) for p in cands):
+                    return ("released bytes are a prefix of an authentic plaintext", "out=" + r["out"].hex())
+                if r["code"] == 0 and r["out"] not in cands:
+                    return ("success only with a complete authentic plaintext", "ok out=" + r["out"].hex())
+                return None
+            a = dict(c.a)
+            a.update(ws=rng.choice(["-", "c1,c2"]), rs=rng.choice(["-", "c3,c7,c1,c40"]))
+            out.append(Case("dec_chunks", oracle=orc, tags=["modified"] + [t for t in c.tags if t != "trivial"], **a))
+        return out
+
+
+REGISTRY["C04"] = C04()
